@@ -1,40 +1,116 @@
 ---------------------------- MODULE ScrollableTrace ----------------------------
 (* C20 trace validation: histories executed on real Scrollable / ScrollBar objects.           *)
+(* The trace specification carries the model of spec/Scrollable.tla along the recorded         *)
+(* history (stored position, pending key, bar state of the rendering on screen) and judges     *)
+(* every rendering and every delivery of input against it.                                     *)
 EXTENDS ScrollableOps, Json, IOUtils
 
 Traces == JsonDeserialize(IOEnv.TRACE_FILE)
-VARIABLES tid, l, prevp, prevtop, lastp, ok, why
-vars == <<tid, l, prevp, prevtop, lastp, ok, why>>
+VARIABLES tid, l, prevp, prevtop, lastp, ok, why,
+          stored, pend,     \* model of the position: as in Scrollable.tla
+          quiet,            \* no key / set_scrollpos / wheel / click since the last rendering
+          nren,             \* renderings so far
+          lastbar, lastw, lasth   \* the rendering on screen: bar drawn, view size
+vars == <<tid, l, prevp, prevtop, lastp, ok, why, stored, pend, quiet, nren, lastbar, lastw, lasth>>
 
-Init == tid \in 1..Len(Traces) /\ l = 0 /\ prevp = -1 /\ prevtop = -1 /\ lastp = 0 /\ ok = TRUE /\ why = "-"
+Init == /\ tid \in 1..Len(Traces) /\ l = 0 /\ prevp = -1 /\ prevtop = -1 /\ lastp = 0 /\ ok = TRUE /\ why = "-"
+        /\ stored = 0 /\ pend = "" /\ quiet = TRUE /\ nren = 0 /\ lastbar = FALSE /\ lastw = 0 /\ lasth = 0
 
-\* e.t = "render": rows = row numbers shown (-1 blank), p = reported position, total, h, cw = width the child got,
-\*                 w = view width, bar = 0/1, barw = bar width asked, top/thumb/bottom = bar parts, narrow = content narrower than view
+(* ---- content height of a list of items (ListBox under ScrollBar): <<wrap, n>> = n explicit lines (wrap = 0), or  *)
+(*      n cells wrapped anywhere (wrap = 1)                                                                          *)
+ItemRows(it, cols) == IF it[1] = 1 THEN Max2(1, (it[2] + cols - 1) \div cols) ELSE it[2]
+RECURSIVE SumRowsTo(_, _, _)
+SumRowsTo(items, cols, k) == IF k = 0 THEN 0 ELSE SumRowsTo(items, cols, k - 1) + ItemRows(items[k], cols)
+SumRows(items, cols) == SumRowsTo(items, cols, Len(items))
+
+\* sizes the wrapped widget was called with: box widgets <<cols, rows>>, flow widgets cols
+BoxSizesOK(calls, drawn, w, h, barw) == \A i \in 1..Len(calls) : calls[i][1] = ChildWidth(drawn, w, barw) /\ calls[i][2] = h
+FlowSizesOK(calls, drawn, w, barw) == \A i \in 1..Len(calls) : calls[i] = ChildWidth(drawn, w, barw)
+
+\* e.t = "render": rows = row numbers shown (-1 blank), p = reported position, total = rows of the wrapped widget's full
+\*   rendering at the width it was given, totalfull = at the full view width (what decides whether a bar is needed), h/w = view size, hasbar = under a ScrollBar, bar = 0/1 drawn, barw = bar width asked, top/thumb/bottom = bar parts,
+\*   calls = sizes the ScrollBar's wrapped widget was rendered with, inner = widths the Scrollable's flow widget was rendered with,
+\*   exact = 1: the wrapped widget has no cursor, the position is fully determined by the history (model of Scrollable.tla)
 RenderVerdict(e) ==
   IF e.exc # "" THEN "render_never_raises"
   ELSE IF Len(e.rows) # e.h THEN "view_height"
   ELSE IF e.p < 0 \/ e.p > MaxPos(e.total, e.h) THEN "position_within_bounds"
   ELSE IF e.rows # View(e.p, e.total, e.h) THEN "view_is_rows_p_to_p_plus_height"
-  ELSE IF e.hasbar = 1 /\ ~BarDrawnOK(e.bar = 1, e.total, e.h) THEN "bar_drawn_iff_more_rows_than_view"
+  ELSE IF e.exact = 1 /\ nren > 0 /\ quiet /\ e.p # Clamp(lastp, e.total, e.h) THEN "resize_or_content_change_only_clamps_position"
+  ELSE IF e.exact = 1 /\ ~ShownOK(e.p, stored, pend, e.total, e.h) THEN "position_is_what_the_history_of_keys_and_positions_gives"
+  ELSE IF e.hasbar = 1 /\ ~BarDrawnOK(e.bar = 1, e.totalfull, e.h) THEN "bar_drawn_iff_more_rows_than_view"
   ELSE IF e.bar = 1 /\ ~PartsOK(e.top, e.thumb, e.bottom, e.h) THEN "bar_parts_nonnegative_and_sum_to_height"
   ELSE IF e.bar = 1 /\ e.judge_top = 1 /\ ~ThumbTopOK(e.top, e.thumb, e.p, e.h) THEN "thumb_leaves_top_iff_scrolled"
-  ELSE IF e.hasbar = 1 /\ e.cw # (IF e.bar = 1 THEN e.w - e.barw ELSE e.w) THEN "child_gets_width_minus_bar"
+  ELSE IF e.hasbar = 1 /\ ~BoxSizesOK(e.calls, e.bar = 1, e.w, e.h, e.barw) THEN "child_gets_width_minus_bar"
+  ELSE IF ~FlowSizesOK(e.inner, e.bar = 1, e.w, e.barw) THEN "child_gets_width_minus_bar"
   ELSE IF e.bar = 1 /\ e.sweep = 1 /\ prevp >= 0 /\ e.p >= prevp /\ e.top < prevtop THEN "thumb_never_moves_up_when_position_increases"
+  ELSE "-"
+
+\* e.t = "lbrender": ListBox under ScrollBar; items = <<wrap, n>> per item (the model's own content), p = ListBox.get_scrollpos,
+\*   rmax = ListBox.rows_max for the size it was rendered with, cw = that width
+LbVerdict(e) ==
+  LET total == SumRows(e.items, e.w)
+      exactrows == Len(e.items) <= 3 * e.h          \* otherwise the bar shows item positions, not rows
+  IN IF e.exc # "" THEN "render_never_raises"
+     ELSE IF ~BarDrawnOK(e.bar = 1, total, e.h) THEN "bar_drawn_iff_more_rows_than_view"
+     ELSE IF e.bar = 1 /\ ~PartsOK(e.top, e.thumb, e.bottom, e.h) THEN "bar_parts_nonnegative_and_sum_to_height"
+     ELSE IF ~BoxSizesOK(e.calls, e.bar = 1, e.w, e.h, e.barw) THEN "child_gets_width_minus_bar"
+     ELSE IF exactrows /\ e.rmax # SumRows(e.items, e.cw) THEN "rows_max_is_the_content_height"
+     ELSE IF e.bar = 1 /\ exactrows /\ ~ThumbTopOK(e.top, e.thumb, e.p, e.h) THEN "thumb_leaves_top_iff_scrolled"
+     ELSE "-"
+
+\* mouse events: the position is relative to the widget that receives it - the ScrollBar takes its columns off when the bar
+\* is drawn on the left, the Scrollable adds the rows scrolled out above the view.  Events on the bar's own columns are
+\* not judged (col, row = position sent to the outermost widget; boxpos / innerpos = positions received).
+BarShift(e) == IF lastbar /\ e.left = 1 THEN e.barw ELSE 0
+InChild(e) == ~lastbar \/ (IF e.left = 1 THEN e.col >= e.barw ELSE e.col < lastw - e.barw)
+MousePosOK(e) == InChild(e) =>
+  /\ \A i \in 1..Len(e.boxpos) : e.boxpos[i][1] = e.col - BarShift(e) /\ e.boxpos[i][2] = e.row
+  /\ \A i \in 1..Len(e.innerpos) : e.innerpos[i][1] = e.col - BarShift(e) /\ e.innerpos[i][2] = e.row + lastp
+
+\* input handed down by the ScrollBar / Scrollable: same width as the rendering on screen
+InputVerdict(e, fn) ==
+  IF e.exc # "" THEN "keypress_never_raises"
+  ELSE IF e.hasbar = 1 /\ ~BoxSizesOK(e.calls, lastbar, lastw, lasth, e.barw) THEN "child_gets_width_minus_bar." \o fn
+  ELSE IF ~FlowSizesOK(e.inner, lastbar, lastw, e.barw) THEN "child_gets_width_minus_bar." \o fn
+  \* not a sentence of C20 (reported as DIVERGENCE by the driver, which then re-submits the history with nopos = 1)
+  ELSE IF fn = "mouse_event" /\ Traces[tid].nopos = 0 /\ ~MousePosOK(e) THEN "mouse_position_relative_to_wrapped_widget"
   ELSE "-"
 
 Verdict(e) ==
   CASE e.t = "render" -> RenderVerdict(e)
-    [] e.t = "key" -> IF e.exc # "" THEN "keypress_never_raises" ELSE "-"
+    [] e.t = "lbrender" -> LbVerdict(e)
+    [] e.t = "key" -> InputVerdict(e, "keypress")
+    [] e.t = "mouse" -> InputVerdict(e, "mouse_event")
     [] e.t = "consumed" ->   \* a key / mouse event the wrapped widget handled: the next render must not have scrolled
-         IF e.exc # "" THEN "keypress_never_raises" ELSE IF e.after # e.before THEN "handled_input_not_used_for_scrolling" ELSE "-"
+         IF e.exc # "" THEN "keypress_never_raises" ELSE IF e.after # e.before THEN "handled_input_not_used_for_scrolling"
+         ELSE InputVerdict(e, e.fn)
     [] OTHER -> "-"
 
+\* ---- the model along the history ----
+\* key: e.reached = 1 when the wrapped widget did not handle it (the Scrollable maps it to a scroll action)
+\* mouse: e.button 4 / 5 not handled by the wrapped widget under a ScrollBar: one row up / down from the stored position
+Touches(e) == e.t \in {"key", "mouse", "setpos"}
 Step == /\ ok /\ l < Len(Traces[tid].ev) /\ l' = l + 1 /\ tid' = tid
         /\ LET e == Traces[tid].ev[l + 1]  v == Verdict(e)
+               isr == e.t \in {"render", "lbrender"}
            IN /\ why' = v /\ ok' = (v = "-")
               /\ prevp' = IF e.t = "render" /\ e.bar = 1 THEN e.p ELSE prevp
               /\ prevtop' = IF e.t = "render" /\ e.bar = 1 THEN e.top ELSE prevtop
               /\ lastp' = IF e.t = "render" THEN e.p ELSE lastp
+              /\ stored' = CASE e.t = "render" -> e.p
+                             [] e.t = "setpos" -> e.v
+                             [] e.t = "mouse" /\ e.reached = 1 /\ e.hasbar = 1 /\ e.button = 4 -> WheelPos(stored, "up")
+                             [] e.t = "mouse" /\ e.reached = 1 /\ e.hasbar = 1 /\ e.button = 5 -> WheelPos(stored, "down")
+                             [] OTHER -> stored
+              /\ pend' = CASE isr -> ""
+                           [] e.t = "key" /\ e.reached = 1 /\ e.key \in ScrollKeys -> e.key
+                           [] OTHER -> pend
+              /\ quiet' = IF isr THEN TRUE ELSE IF Touches(e) THEN FALSE ELSE quiet
+              /\ nren' = IF isr THEN nren + 1 ELSE nren
+              /\ lastbar' = IF isr THEN e.bar = 1 ELSE lastbar
+              /\ lastw' = IF isr THEN e.w ELSE lastw
+              /\ lasth' = IF isr THEN e.h ELSE lasth
 Spec == Init /\ [][Step]_vars
 Report == ok \/ PrintT(<<"REJECT", tid, l, why>>)
 ================================================================================
